@@ -81,6 +81,58 @@ func checkC14(c *core.Ctx) {
 			c.Check("R2", fname+" "+what, p.Pos(pos), false, why)
 		})
 	}
+	// R2b: a []byte taken from package-level storage must not be stored into a
+	// value that callers extend in place (format.go appends to token.concrete)
+	for _, pk := range libraryPkgs(p) {
+		info := pk.TypesInfo
+		rootedAtGlobal := func(e ast.Expr) (string, bool) {
+			for {
+				switch x := ast.Unparen(e).(type) {
+				case *ast.IndexExpr:
+					e = x.X
+					continue
+				case *ast.SliceExpr:
+					e = x.X
+					continue
+				case *ast.Ident:
+					if v, ok := info.ObjectOf(x).(*types.Var); ok && v.Pkg() != nil && v.Parent() == v.Pkg().Scope() {
+						return v.Name(), true
+					}
+					return "", false
+				}
+				return "", false
+			}
+		}
+		for _, file := range pk.Syntax {
+			ast.Inspect(file, func(n ast.Node) bool {
+				var field string
+				var rhs ast.Expr
+				switch x := n.(type) {
+				case *ast.KeyValueExpr:
+					if id, ok := x.Key.(*ast.Ident); ok {
+						field, rhs = id.Name, x.Value
+					}
+				case *ast.AssignStmt:
+					if len(x.Lhs) == 1 && len(x.Rhs) == 1 {
+						if sel, ok := ast.Unparen(x.Lhs[0]).(*ast.SelectorExpr); ok {
+							field, rhs = sel.Sel.Name, x.Rhs[0]
+						}
+					}
+				}
+				if rhs == nil || field == "" {
+					return true
+				}
+				if t := info.TypeOf(rhs); t == nil || !strings.HasPrefix(t.String(), "[]") {
+					return true
+				}
+				if g, ok := rootedAtGlobal(rhs); ok {
+					c.Check("R2", "field "+field+" is given a slice of package-level "+g, p.Pos(n.Pos()), false,
+						"the slice shares its backing array with package-level state: a caller that appends to it in place (the formatter does, to token text) writes into memory every other call sees")
+				}
+				return true
+			})
+		}
+	}
 	c.Count("functions_scanned_for_global_writes", nFuncs)
 	c.Floor("functions_scanned_for_global_writes", 100)
 	c.Check("R2", "no library function writes package-level state (scan complete)", "-", true, "")
